@@ -208,6 +208,12 @@ def eval_interop(case):
             if r[1] is not True:
                 out.append((f"C20|{fmt}|{maker}_hash:{side}_verify:own_password_rejected{mt}",
                             f"the {maker}-made {fmt} hash {h!r} of {p!r} (salt {salt!r}, cost {rounds}) does not verify under {side}: {r[1]!r}"))
+            # the stored hash handed over as BYTES (both APIs take text or bytes): the same verdict
+            rb = _verify(side, fmt, vrounds, h.encode("ascii"), p)
+            if rb[0] == "exc" or rb[1] is not r[1]:
+                what = f"raises:{_exc(rb[1])}" if rb[0] == "exc" else "verdict_differs"
+                out.append((f"C20|{fmt}|{maker}_hash:{side}_verify:bytes_hash:{what}{mt}",
+                            f"{side} verify({p!r}) of the {maker}-made {fmt} hash given as bytes {h.encode('ascii')!r}: {rb[1]!r}; given as text: {r[1]!r}"))
             for label, q in wrongs:
                 r = _verify(side, fmt, vrounds, h, q)
                 if r[0] == "exc":
